@@ -67,12 +67,21 @@ func drainAll(fd int) {
 }
 
 //go:noinline
-func gcCreate(x *engine.X, ioc *sonic.IO, kind string, wantR, wantW bool) *gcObj {
+func gcCreate(x *engine.X, ioc *sonic.IO, kind string, wantR, wantW, rearm bool) *gcObj {
 	g := &gcObj{rdone: new(int), wdone: new(int), hasR: wantR, hasW: wantW}
 	rs, ws := &gcSentinel{}, &gcSentinel{}
 	g.wr, g.ww = weak.Make(rs), weak.Make(ws)
 	rdone, wdone := g.rdone, g.wdone
-	rcb := func(err error, n int) { rs.hits[0]++; *rdone++ }
+	// rearm: the first completion of the read starts the same read again from inside its own callback (an accept
+	// loop, a receive loop); that second read is the one in flight when the collector runs
+	var reissue func()
+	rcb := func(err error, n int) {
+		rs.hits[0]++
+		*rdone++
+		if rearm && *rdone == 1 && err == nil {
+			reissue()
+		}
+	}
 	wcb := func(err error, n int) { ws.hits[0]++; *wdone++ }
 	var fdo sonic.FileDescriptor
 	switch kind {
@@ -125,7 +134,8 @@ func gcCreate(x *engine.X, ioc *sonic.IO, kind string, wantR, wantW bool) *gcObj
 		g.fd, g.peer = pc.RawFd(), p
 		fd := g.fd
 		g.cleanup = func() { syscall.Close(fd); syscall.Close(p) }
-		pc.AsyncReadFrom(make([]byte, 8), func(err error, n int, _ net.Addr) { rcb(err, n) })
+		reissue = func() { pc.AsyncReadFrom(make([]byte, 8), func(err error, n int, _ net.Addr) { rcb(err, n) }) }
+		reissue()
 		return g
 	case "lst":
 		addr := kern.NextLoopback()
@@ -136,13 +146,16 @@ func gcCreate(x *engine.X, ioc *sonic.IO, kind string, wantR, wantW bool) *gcObj
 		g.fd, g.peer = l.RawFd(), -1
 		fd := g.fd
 		g.cleanup = func() { syscall.Close(fd) }
-		l.AsyncAccept(func(err error, c sonic.Conn) {
-			if c != nil {
-				syscall.SetsockoptLinger(c.RawFd(), syscall.SOL_SOCKET, syscall.SO_LINGER, &syscall.Linger{Onoff: 1})
-				c.Close()
-			}
-			rcb(err, 0)
-		})
+		reissue = func() {
+			l.AsyncAccept(func(err error, c sonic.Conn) {
+				if c != nil {
+					syscall.SetsockoptLinger(c.RawFd(), syscall.SOL_SOCKET, syscall.SO_LINGER, &syscall.Linger{Onoff: 1})
+					c.Close()
+				}
+				rcb(err, 0)
+			})
+		}
+		reissue()
 		return g
 	case "peer":
 		p, err := newOwnPeer(ioc, "127.0.0.1")
@@ -153,7 +166,8 @@ func gcCreate(x *engine.X, ioc *sonic.IO, kind string, wantR, wantW bool) *gcObj
 		g.fd, g.peer = p.NextLayer().RawFd(), rp
 		fd := g.fd
 		g.cleanup = func() { syscall.Close(fd); syscall.Close(rp) }
-		p.AsyncRead(make([]byte, 8), func(err error, n int, _ netip.AddrPort) { rcb(err, n) })
+		reissue = func() { p.AsyncRead(make([]byte, 8), func(err error, n int, _ netip.AddrPort) { rcb(err, n) }) }
+		reissue()
 		return g
 	}
 	if wantW {
@@ -161,7 +175,8 @@ func gcCreate(x *engine.X, ioc *sonic.IO, kind string, wantR, wantW bool) *gcObj
 		fdo.AsyncWrite([]byte{1, 2, 3}, wcb)
 	}
 	if wantR {
-		fdo.AsyncRead(make([]byte, 8), rcb)
+		reissue = func() { fdo.AsyncRead(make([]byte, 8), rcb) }
+		reissue()
 	}
 	return g
 }
@@ -179,13 +194,14 @@ func gcNow(x *engine.X, where string) bool {
 func c13GC(x *engine.X) {
 	kinds := []string{"tcp", "adp", "fifo-r", "pkt", "lst", "peer"}
 	kind := kinds[x.Pick(len(kinds), "kind")]
-	shapes := []string{"read"}
+	shapes := []string{"read", "read, re-armed from its own completion"}
 	if kind == "tcp" || kind == "adp" {
-		shapes = []string{"both, read completes first", "read", "write", "both", "both, write completes first"}
+		shapes = []string{"both, read completes first", "read", "write", "both", "both, write completes first", "read, re-armed from its own completion"}
 	}
 	shape := shapes[x.Pick(len(shapes), "shape")]
+	rearm := shape == "read, re-armed from its own completion"
 	wantR := shape != "write"
-	wantW := shape != "read"
+	wantW := shape != "read" && !rearm
 	// History: none, or an earlier object A (of any kind) on the same IO was closed before the object under test B
 	// was created — so that B's descriptor number is the one A had — and A is closed AGAIN once B's operations are
 	// in flight. A's second Close must not touch anything of B: neither the descriptor (the close family checks
@@ -199,7 +215,7 @@ func c13GC(x *engine.X) {
 		if err != nil {
 			engine.HarnessError("NewIO: %v", err)
 		}
-		g = gcCreate(x, ioc, kind, wantR, wantW)
+		g = gcCreate(x, ioc, kind, wantR, wantW, rearm)
 	} else {
 		e := newC13Env(x)
 		ioc = e.ioc
@@ -214,7 +230,7 @@ func c13GC(x *engine.X) {
 		for _, fd := range fillers {
 			syscall.Close(fd)
 		}
-		g = gcCreate(x, ioc, kind, wantR, wantW)
+		g = gcCreate(x, ioc, kind, wantR, wantW, rearm)
 		reused := false
 		for _, fd := range a.fds {
 			reused = reused || fd == g.fd
@@ -239,11 +255,15 @@ func c13GC(x *engine.X) {
 	})
 	x.Note("gc/%s/%s", kind, shape)
 	gced := false
+	readsWanted := 1
+	if rearm {
+		readsWanted = 2
+	}
 	alive := func(when string) {
 		if !gced {
 			return
 		}
-		if wantR && *g.rdone == 0 && g.wr.Value() == nil {
+		if wantR && *g.rdone < readsWanted && g.wr.Value() == nil {
 			collected = true
 			x.Fail(fmt.Sprintf("gc/%s/%s/read-owner-collected", kind, shape), "%s: the read is still in flight but the object that owns it was garbage collected %s (its completion callback is unreachable)", kind, when)
 		}
@@ -280,11 +300,12 @@ func c13GC(x *engine.X) {
 		if !kern.AwaitReadReady(g.fd, settleGuard) {
 			x.Inconclusive("peer data did not arrive")
 		}
-		for i := 0; i < 3 && *g.rdone == 0; i++ {
+		had := *g.rdone
+		for i := 0; i < 3 && *g.rdone == had; i++ {
 			ioc.PollOne()
 		}
-		if *g.rdone != 1 {
-			x.Fail(fmt.Sprintf("gc/%s/%s/read-completion-lost", kind, shape), "%s: the peer acted, after 3 polls the read callback ran %d times", kind, *g.rdone)
+		if *g.rdone != had+1 {
+			x.Fail(fmt.Sprintf("gc/%s/%s/read-completion-lost", kind, shape), "%s: the peer acted, after 3 polls the read callback ran %d times (expected %d)", kind, *g.rdone, had+1)
 		}
 	}
 	completeWrite := func() {
@@ -306,6 +327,21 @@ func c13GC(x *engine.X) {
 	first, second := completeRead, completeWrite
 	if shape == "both, write completes first" || shape == "write" {
 		first, second = completeWrite, completeRead
+	}
+	if rearm {
+		// first completion: its callback starts the read again; that one is in flight when the collector runs
+		completeRead()
+		if *g.rdone != 1 {
+			x.Inconclusive("the re-armed read completed at once")
+		}
+		if g2 := gcNow(x, "after the read was re-armed from its own completion"); g2 {
+			gced = true
+			x.Nontrivial()
+		}
+		alive("after the read was re-armed from its own completion")
+		completeRead()
+		x.Outcome("gc/" + kind + "/" + shape)
+		return
 	}
 	if !(wantR && wantW) {
 		if wantR {
